@@ -11,6 +11,10 @@
 (*   S.hs    handles returned by the library, in order of creation:           *)
 (*           [path, ex (Existing()), own (hierarchies whose directory this    *)
 (*            handle created), acts (hierarchies the handle acts on), live]   *)
+(*   S.lim   limits in force because a Set* call wrote them and the kernel     *)
+(*           accepted: a set of <<directory, file, value>>; "limits written    *)
+(*           are the limits in force" = every later call leaves them alone     *)
+(*           until the directory itself is removed (LimitsKept)                *)
 (*                                                                            *)
 (* Property layer  : Spec* operators -- what each call must do.               *)
 (* Implementation  : Impl* operators -- what the code does, with switches for *)
@@ -18,6 +22,9 @@
 (*   ControlsExisting  a v1 handle that opened an existing group acts on it   *)
 (*   RandomFresh       Random never returns a group that already existed      *)
 (*   OpenReturns       OpenExisting on v1 returns the handle it built         *)
+(*   OpenKeepsLimits   obtaining another handle on an existing group leaves its *)
+(*                     limits alone (FALSE: the cpuset limit is re-initialised *)
+(*                     from the parent whenever a v1 handle is returned)       *)
 (*   OwnsOnlyCreated   per hierarchy, only a directory the handle created is   *)
 (*                     recorded as created (FALSE: when the first hierarchy    *)
 (*                     was fresh, every hierarchy is -- also pre-existing ones)*)
@@ -29,7 +36,7 @@
 (* directory the handle does not own.                                          *)
 EXTENDS Integers, Sequences, FiniteSets
 
-CONSTANTS ControlsExisting, RandomFresh, OpenReturns, OwnsOnlyCreated
+CONSTANTS ControlsExisting, RandomFresh, OpenReturns, OwnsOnlyCreated, OpenKeepsLimits
 
 Outside == <<"-">>
 Child(p, n) == Append(p, n)
@@ -49,7 +56,22 @@ AddHandle(S, h) == [S EXCEPT !.hs = Append(@, h)]
 MkDirs(S, p) == [S EXCEPT !.dirs = [c \in S.ctls |-> @[c] \cup {p}]]
 Move(S, ks, p, cs) == [S EXCEPT !.mem = [c \in S.ctls |-> IF c \in cs THEN [k \in DOMAIN @[c] |-> IF k \in ks THEN p ELSE @[c][k]] ELSE @[c]]]
 
+\* ---------------------------------------------------------------- limits
+\* a Set* call writes one or two limit files; each file belongs to one hierarchy
+Files(kind, val) == CASE kind = "cpu"  -> { <<"cpuq", val>>, <<"cpup", "100000">> }
+                      [] kind = "mem"  -> { <<"mem", val>> }
+                      [] kind = "pids" -> { <<"pids", val>> }
+                      [] kind = "cpus" -> { <<"cpus", val>> }
+CtlOf(file) == CASE file \in {"cpuq", "cpup"} -> "cpu" [] file = "mem" -> "memory" [] file = "pids" -> "pids" [] file = "cpus" -> "cpuset"
+SetLim(S, p, kind, val) ==
+  LET fs == Files(kind, val) IN
+  [S EXCEPT !.lim = { x \in @ : ~(x[1] = p /\ \E f \in fs : f[1] = x[2]) } \cup { <<p, f[1], f[2]>> : f \in fs }]
+\* a limit lives as long as its directory
+DropLim(S) == [S EXCEPT !.lim = { x \in @ : CtlOf(x[2]) \in S.ctls /\ x[1] \in S.dirs[CtlOf(x[2])] }]
+
 \* ---------------------------------------------------------------- property layer
+\* SetX(handle, value) accepted by the kernel: the value is in force from now on
+SpecSet(S, h, kind, val) == Res(SetLim(S, S.hs[h].path, kind, val), FALSE, 0)
 \* an administrator creates the directory p in the hierarchies cs, outside the library
 SpecMk(S, p, cs) == Res([S EXCEPT !.dirs = [c \in S.ctls |-> IF c \in cs THEN @[c] \cup {p} ELSE @[c]]], FALSE, 0)
 Mixed(S, p) == ~Uniform(S, p)
@@ -89,11 +111,14 @@ SpecDestroy(S, h) ==
       R == { c \in S.hs[h].own : Removable(S, c, p) }
       S1 == [S EXCEPT !.dirs = [c \in S.ctls |-> IF c \in R THEN @[c] \ {p} ELSE @[c]],
                       !.hs[h].live = FALSE]     \* one Destroy per handle (a retry after a partial failure is a client matter)
-  IN Res(S1, R # S.hs[h].own, 0)
+  IN Res(DropLim(S1), R # S.hs[h].own, 0)
 LazyAllowed(S, h) == S.hs[h].ex /\ S.hs[h].own # {}
 SpecDestroyLazy(S, h) == Res([S EXCEPT !.hs[h].live = FALSE], FALSE, 0)
 
 \* ---------------------------------------------------------------- implementation layer
+\* every v1 handle the library returns has its cpuset initialised from the parent: only when the
+\* group's own value is empty (OpenKeepsLimits), or always
+Reinit(S, p) == IF OpenKeepsLimits THEN S ELSE [S EXCEPT !.lim = { x \in @ : ~(x[1] = p /\ x[2] = "cpus") }]
 \* the library visits the v1 controllers in a fixed order; the first one decides Existing()
 Rank(c) == CASE c = "cpu" -> 1 [] c = "cpuset" -> 2 [] c = "cpuacct" -> 3 [] c = "memory" -> 4 [] c = "pids" -> 5 [] OTHER -> 0
 First(S) == CHOOSE c \in S.ctls : \A d \in S.ctls : Rank(c) <= Rank(d)
@@ -101,7 +126,7 @@ ImplNewAt(S, p) ==
   LET own == { c \in S.ctls : p \notin S.dirs[c] }
       rec == IF OwnsOnlyCreated \/ First(S) \notin own THEN own ELSE S.ctls
       S1  == AddHandle(MkDirs(S, p), Handle(p, First(S) \notin own, rec, IF ControlsExisting THEN S.ctls ELSE own))
-  IN Res(S1, FALSE, Len(S1.hs))
+  IN Res(Reinit(S1, p), FALSE, Len(S1.hs))
 ImplNew(S, h, name) == ImplNewAt(S, Child(S.hs[h].path, name))
 ImplRandom(S, h, names) == IF RandomFresh THEN ImplNew(S, h, names[FirstFree(S, h, names)])
                            ELSE ImplNew(S, h, names[1])
@@ -116,7 +141,8 @@ ImplNest(S, h, name) ==
           [r EXCEPT !.S = Move(r.S, Procs(S, c0, S.hs[h].path), p, r.S.hs[r.n].acts)]
 ImplOpen(S, p) ==
   IF ~Exists(S, p) THEN Res(S, TRUE, 0)
-  ELSE IF OpenReturns THEN SpecOpen(S, p) ELSE Res(S, FALSE, 0)
+  ELSE IF OpenReturns THEN [SpecOpen(S, p) EXCEPT !.S = Reinit(@, p)] ELSE Res(S, FALSE, 0)
+ImplSet(S, h, kind, val) == SpecSet(S, h, kind, val)
 ImplAdd(S, h, k) == Res(Move(S, {k}, S.hs[h].path, S.hs[h].acts), FALSE, 0)
 ImplDestroy(S, h) == IF S.hs[h].ex THEN SpecDestroyLazy(S, h) ELSE SpecDestroy(S, h)
 
@@ -131,6 +157,8 @@ AdmDestroy(S, h, r) == r = SpecDestroy(S, h) \/ (LazyAllowed(S, h) /\ r = SpecDe
 NoDoubleOwner(S) ==
   \A i, j \in DOMAIN S.hs :
      (i # j /\ S.hs[i].live /\ S.hs[j].live /\ S.hs[i].path = S.hs[j].path) => S.hs[i].own \cap S.hs[j].own = {}
+\* limits are only recorded for directories that exist
+LimitsHoused(S) == \A x \in S.lim : CtlOf(x[2]) \in S.ctls /\ x[1] \in S.dirs[CtlOf(x[2])]
 \* every process is in a group that exists
 MembersHoused(S) == \A c \in S.ctls : \A k \in DOMAIN S.mem[c] : S.mem[c][k] = Outside \/ S.mem[c][k] \in S.dirs[c]
 =============================================================================
